@@ -257,8 +257,10 @@ PROPS = {
     },
     "C06": {
         "module": "ShapeVerif.Props.C06",
-        "theorems": ["ShapeVerif.paths_agree", "ShapeVerif.visitor_spec", "ShapeVerif.classify_agree"],
+        "theorems": ["ShapeVerif.paths_agree", "ShapeVerif.visitor_spec", "ShapeVerif.classify_agree", "ShapeVerif.paths_agree_text"],
+        "extra_modules": ["ShapeVerif.Props.TextLevel"],
         "statements": {
+            "paths_agree_text": "Reads t d → d.noDupKeys → fromStr t = ok s → inferSVal d.toSVal = s (the statement for the string given to from_str; d.toSVal is the model of the serde_json value of the text)",
             "paths_agree": "∀ d, d.noDupKeys → inferDoc d = ok s → inferSVal d.toSVal = s",
             "classify_agree": "on inferred element shapes the two array classifications (branches tested in different orders) coincide",
         },
@@ -292,8 +294,12 @@ PROPS = {
         "module": "ShapeVerif.Props.C12",
         "theorems": ["ShapeVerif.inferSVal_cost", "ShapeVerif.inferSVal_level_additive", "ShapeVerif.inferDoc_cost",
                      "ShapeVerif.merger_cost", "ShapeVerif.merger_cost_right", "ShapeVerif.merge_cost",
-                     "ShapeVerif.subset_cost", "ShapeVerif.subsetT_is_isSubset"],
+                     "ShapeVerif.subset_cost", "ShapeVerif.subsetT_is_isSubset", "ShapeVerif.text_front_end_linear",
+                     "ShapeVerif.parse_work_linear", "ShapeVerif.parser_work", "ShapeVerif.tokens_le_chars"],
+        "extra_modules": ["ShapeVerif.Props.C12Text"],
         "statements": {
+            "text_front_end_linear": "∀ text: the lexer emits at most one token per character and the recovering parser makes at most 4·|text| + 2 rule entries and recovery-loop iterations (every string, grammatical or not) — with inferDoc_cost the whole text path is polynomial",
+            "parser_work": "potential argument: ticks + 4·(tokens left) ≤ 4·(tokens before) + c for each of the six parser functions in every coherent state",
             "inferSVal_cost": "calls of From<&Value> on v = nodes v (each node once)",
             "inferSVal_level_additive": "one more array level adds exactly one call",
             "inferDoc_cost": "calls of parse_rule on d ≤ nodes d",
